@@ -299,6 +299,8 @@ def r2_isolation(ctx):
                                     d = k.value
                             if d is None and v.args:
                                 d = v.args[0]
+                            from rules.stream import once_bound as _ob2
+                            d = _ob2(m.node, d) if d is not None else d        # (the copy bound to a local first)
                             src = d
                             if isinstance(d, ast.Call) and res.external_name(d) == 'copy.deepcopy' and d.args \
                                     and ups in facts.roots(d.args[0]):
